@@ -93,6 +93,11 @@ type summaryWalker struct {
 	exports         []*TypeRef
 	refs            []*sourcewalk.RefNode
 	subPackageFiles []string
+
+	// subPackageDepth is non-zero while walking a service or topic: the
+	// request, response and message objects found there are written to the
+	// .service / .topic sub-package files, they are not types of this package.
+	subPackageDepth int
 }
 
 func (c *summaryWalker) includeSubFile(subPackage string) {
@@ -105,6 +110,9 @@ func (c *summaryWalker) includeSubFile(subPackage string) {
 }
 
 func (c *summaryWalker) addExport(ref *TypeRef) {
+	if c.subPackageDepth > 0 {
+		return
+	}
 	c.exports = append(c.exports, ref)
 }
 
@@ -146,6 +154,22 @@ func (cc *summaryWalker) collectFileRefs(sourceFile *sourcedef_j5pb.SourceFile) 
 		},
 		Topic: func(node *sourcewalk.TopicNode) error {
 			cc.includeSubFile("topic")
+			return nil
+		},
+		ServiceFile: func(*sourcewalk.ServiceFileNode) error {
+			cc.subPackageDepth++
+			return nil
+		},
+		ServiceFileExit: func(*sourcewalk.ServiceFileNode) error {
+			cc.subPackageDepth--
+			return nil
+		},
+		TopicFile: func(*sourcewalk.TopicFileNode) error {
+			cc.subPackageDepth++
+			return nil
+		},
+		TopicFileExit: func(*sourcewalk.TopicFileNode) error {
+			cc.subPackageDepth--
 			return nil
 		},
 	}
